@@ -196,6 +196,33 @@ func callArgs(cc *ssa.CallCommon) []ssa.Value {
 
 // strip removes value-preserving conversions.
 func strip(v ssa.Value) ssa.Value {
+	for n := 0; n < 64; n++ {
+		switch x := v.(type) {
+		case *ssa.ChangeType:
+			v = x.X
+		case *ssa.MakeInterface:
+			v = x.X
+		case *ssa.ChangeInterface:
+			v = x.X
+		case *ssa.Convert:
+			v = x.X
+		case *ssa.Parameter:
+			// the parameter of a single-caller helper is the caller's
+			// argument (see paramAlias)
+			a, ok := paramAlias[x]
+			if !ok {
+				return v
+			}
+			v = a
+		default:
+			return v
+		}
+	}
+	return v
+}
+
+// stripLocal is strip without following helper-parameter aliases.
+func stripLocal(v ssa.Value) ssa.Value {
 	for {
 		switch x := v.(type) {
 		case *ssa.ChangeType:
@@ -256,6 +283,68 @@ func originCall(v ssa.Value) (*ssa.Call, int) {
 		}
 	}
 	return nil, -1
+}
+
+// originCallLocal is originCall without following helper-parameter aliases.
+func originCallLocal(v ssa.Value) (*ssa.Call, int) {
+	v = stripLocal(v)
+	switch x := v.(type) {
+	case *ssa.Call:
+		return x, 0
+	case *ssa.Extract:
+		if c, ok := x.Tuple.(*ssa.Call); ok {
+			return c, x.Index
+		}
+	}
+	return nil, -1
+}
+
+// deepLeaves switches on the expansion of leaves through single-caller
+// helpers (see returnLeavesDeep / valueLeavesDeep / Expand).
+var deepLeaves bool
+
+// returnLeavesDeep is returnLeaves with results of single-caller helpers
+// replaced by what those helpers return.
+func returnLeavesDeep(f *ssa.Function, idx int) []RetLeaf {
+	deepLeaves = true
+	defer func() { deepLeaves = false }()
+	return returnLeaves(f, idx)
+}
+
+// valueLeavesDeep is valueLeaves with the same expansion.
+func valueLeavesDeep(v ssa.Value, at *ssa.BasicBlock) []RetLeaf {
+	deepLeaves = true
+	defer func() { deepLeaves = false }()
+	return valueLeaves(v, at)
+}
+
+// Expand: if the leaf is the result of a single-caller helper, the leaves of
+// that helper's result (one level); nil otherwise.
+func (l RetLeaf) Expand() []RetLeaf {
+	call, idx := originCallLocal(l.Val)
+	if call == nil {
+		return nil
+	}
+	callee := call.Common().StaticCallee()
+	if callee == nil || callee.Blocks == nil || singleCallSite[callee] != ssa.CallInstruction(call) {
+		return nil
+	}
+	var out []RetLeaf
+	for _, lf := range returnLeaves(callee, idx) {
+		lf.Via = append(append([]*ssa.Call{}, l.Via...), call)
+		out = append(out, lf)
+	}
+	return out
+}
+
+// ViaCall reports whether the leaf was returned through a call matching pats.
+func (l RetLeaf) ViaCall(pats ...string) bool {
+	for _, c := range l.Via {
+		if nameMatches(callName(c.Common()), pats...) {
+			return true
+		}
+	}
+	return false
 }
 
 // fieldLoad: if v is a load of (or Field on) struct field f, return f and
@@ -397,8 +486,21 @@ func guardsOf(b *ssa.BasicBlock) []Guard {
 		}
 		out = append(out, Guard{Cond: cond, Branch: br, If: iff})
 	}
+	// a block of a single-caller helper also stands under the guards of
+	// the helper's only call site (the helper is a piece of its caller)
+	if f := b.Parent(); f != nil {
+		if site, ok := singleCallSite[f]; ok && site.Block() != nil && site.Parent() != f {
+			if guardDepth < 6 {
+				guardDepth++
+				out = append(out, guardsOf(site.Block())...)
+				guardDepth--
+			}
+		}
+	}
 	return out
 }
+
+var guardDepth int
 
 // guardedBy reports whether some dominating guard satisfies pred.
 func guardedBy(b *ssa.BasicBlock, pred func(g Guard) bool) bool {
@@ -496,6 +598,7 @@ type RetLeaf struct {
 	Block *ssa.BasicBlock // block whose guards apply to this leaf (phi edge source when known)
 	Pos   token.Pos
 	Into  *ssa.BasicBlock // for a phi leaf: the phi's block (the edge Block->Into is taken)
+	Via   []*ssa.Call     // calls to single-caller helpers the value was returned through (outermost first)
 }
 
 // Guards returns the branch conditions known to hold when this leaf is the
@@ -630,6 +733,31 @@ func returnsOf(f *ssa.Function) []*ssa.Return {
 }
 
 func expandLeaves(v ssa.Value, blk *ssa.BasicBlock, ret *ssa.Return, seen map[ssa.Value]bool, out *[]RetLeaf) {
+	// the result of a single-caller helper: what the helper returns, under
+	// the helper's own guards (guardsOf adds those of the call site)
+	if call, idx := originCallLocal(v); deepLeaves && call != nil && !seen[v] {
+		if callee := call.Common().StaticCallee(); callee != nil && callee.Blocks != nil && singleCallSite[callee] == ssa.CallInstruction(call) && idx < callee.Signature.Results().Len() {
+			seen[v] = true
+			n := len(*out)
+			for _, b := range callee.Blocks {
+				if b == callee.Recover || len(b.Instrs) == 0 {
+					continue
+				}
+				if r2, ok := b.Instrs[len(b.Instrs)-1].(*ssa.Return); ok && idx < len(r2.Results) {
+					expandLeaves(retResult(r2, idx), b, ret, seen, out)
+				}
+			}
+			for i := n; i < len(*out); i++ {
+				(*out)[i].Via = append([]*ssa.Call{call}, (*out)[i].Via...)
+				if !(*out)[i].Pos.IsValid() {
+					(*out)[i].Pos = call.Pos()
+				}
+			}
+			if len(*out) > n {
+				return
+			}
+		}
+	}
 	switch x := v.(type) {
 	case *ssa.Phi:
 		if seen[x] {
